@@ -177,7 +177,9 @@ func runC28(c *eng.Ctx) {
 					c.Check("R3", "returned-lock-wraps-locked-locker", r.Pos(), v != nil && eng.Render(v) == lk, "the Lock wraps the very locker that was locked")
 				}
 			}
-			c.Check("R3", "lock-path", nl.Pos(), strings.HasPrefix(eng.Render(nl.Call.Args[0]), "daemon.subpath("), "the locker is opened on the daemon lock path", eng.Render(nl.Call.Args[0]))
+			// (directly, or through the package's one-line lockPath() wrapper)
+			lp := renderThroughWrapper(nl.Call.Args[0])
+			c.Check("R3", "lock-path", nl.Pos(), strings.HasPrefix(lp, "daemon.subpath("), "the locker is opened on the daemon lock path", lp)
 			// failure closes
 			closed := false
 			for _, call := range eng.CallsNamed(acq, "(*filesystem/locking.Locker).Close") {
